@@ -193,9 +193,9 @@ theorem bin_roundtrip (cfg : Cfg) (_hs : cfg.sound) (ms : List Module)
 /-- … and for a sound `cfg`, `WF cfg` excludes nothing: it follows from `WFfull` -/
 theorem wf_of_wffull (cfg : Cfg) (hs : cfg.sound) (hc : cfg.codeLimit = cfg.nops.length) (ms : List Module)
     (h : WFfull cfg ms) : WF cfg ms := by
-  obtain ⟨h1, h2, _, h4⟩ := hs
+  obtain ⟨h1, h2, _, h4, h5⟩ := hs
   have e : { cfg with globalDoubleRead := false, dataPtr := true, codeLimit := cfg.nops.length,
-                      endfuncLabels := true } = cfg := by
+                      endfuncLabels := true, lrefZeroIsNone := false } = cfg := by
     cases cfg; simp_all
   have := h.wf
   rwa [e] at this
